@@ -636,6 +636,43 @@ pub fn run_c05(ctx: &mut Ctx) {
         c05_transposition(&start, &moves, st)
     };
     run_prop(ctx, "histories_three_producers", move || walk_strategy(t.pick(150, 250)), t.pick(120_000, 900_000), body, walk_json);
+    // the FEN loader as a producer on ANY string it accepts (fields in unusual order or spelling
+    // included): the key it sets is the from-scratch key of the board it returns, and two strings
+    // that load into equal boards get equal keys
+    run_prop(
+        ctx,
+        "loader_key_on_every_accepted_string",
+        || prop_oneof![1 => crate::props::fen::six_fields(), 2 => crate::props::fen::mutfen_strategy(3).prop_map(|m| crate::props::fen::mutfen_string(&m).unwrap_or_default()), 1 => ("[KQkq]{1,4}", crate::props::fen::mutfen_strategy(1)).prop_map(|(c, m)| {
+            // a valid FEN whose castling field is replaced by the letters in arbitrary order / repetition
+            let f = crate::props::fen::mutfen_string(&crate::props::fen::MutFen { edits: vec![], ..m }).unwrap_or_default();
+            let mut parts: Vec<String> = f.split(' ').map(|x| x.to_string()).collect();
+            if parts.len() == 6 {
+                parts[2] = c;
+            }
+            parts.join(" ")
+        })],
+        t.pick(300_000, 4_000_000),
+        |s, st| {
+            st.eval();
+            let Ok(Ok(b)) = catch(|| BoardState::from_fen(s)) else {
+                st.label("rejected_or_panicked_skip"); // C15's subject
+                return Ok(());
+            };
+            st.label("accepted");
+            let k = scratch_key(&b, hasher());
+            if b.zobrist_key != k {
+                return Err(format!("from_fen({:?}) sets the key {:016x} but the from-scratch key of the board it returns is {:016x}", s, b.zobrist_key, k));
+            }
+            if s.split(' ').nth(2).map(|c| c.len() >= 2 && c != "KQkq" && c != "KQ" && c != "kq" && c != "Kk" && c != "Qq" && c != "KQk" && c != "KQq" && c != "Kkq" && c != "Qkq" && c != "Kq" && c != "Qk").unwrap_or(false) {
+                st.label("castling_field_not_in_canonical_order");
+                st.nontrivial(fp(&s));
+            } else if to_pos(&b).is_ok() {
+                st.nontrivial(fp(&s));
+            }
+            Ok(())
+        },
+        |s| json!({"loader_string": s}),
+    );
     run_prop(
         ctx,
         "short_histories_from_special_starts",
@@ -672,6 +709,14 @@ pub fn run_c05(ctx: &mut Ctx) {
 }
 
 pub fn replay_c05(case: &Value) -> CaseResult {
+    if let Some(s) = case.get("loader_string").and_then(|x| x.as_str()) {
+        let b = BoardState::from_fen(s).map_err(|e| e.to_string())?;
+        let k = scratch_key(&b, hasher());
+        if b.zobrist_key != k {
+            return Err(format!("from_fen({:?}) sets the key {:016x} but the from-scratch key of the board it returns is {:016x}", s, b.zobrist_key, k));
+        }
+        return Ok(());
+    }
     if case.get("mutation").is_some() {
         let a = case.get("fen").and_then(|x| x.as_str()).ok_or("no fen")?;
         let b = case.get("fen2").and_then(|x| x.as_str()).ok_or("no fen2")?;
